@@ -46,6 +46,8 @@ class Pool:
         self.classes = []       # list of lists of (text, version), strictly increasing
         self.rejected = []      # (text, reason)
         self.unrankable = []    # (text, version, other text, other version): the six real operators contradict each other
+        self.cycles = []        # (text, v, other text, other, [(text, version) of the classes next to where `<` located v]):
+                                # each pair is ranked consistently, the three together are not (a < r < b < a)
         self.hashable = True
 
     def insert(self, text, v):
@@ -81,6 +83,17 @@ class Pool:
                     self.rejected.append((text, "inconsistent"))
                     if not consistent(v, w, sign, False):
                         self.unrankable.append((text, v, wt, w))
+                        near = []
+                        if same is not None:
+                            near.append(self.classes[same][0])
+                        else:
+                            if pos < len(self.classes):
+                                near.append(self.classes[pos][0])
+                            if pos > 0:
+                                near.append(self.classes[pos - 1][0])
+                        near = [z for z in near if z[1] is not w]
+                        if near:
+                            self.cycles.append((text, v, wt, w, near))
                     return False
         if same is not None:
             if all(t != text for t, _ in self.classes[same]):
@@ -161,6 +174,51 @@ def word_neighbours(name, s, rng):
     return out
 
 
+TAILS = {
+    "ebuild": ["_p", "_p0", "_p_alpha1", "-r0", "-r1", "-r01", "-r007", "_pre1", "_rc1", "_p1_pre1", "_p1_rc1"],
+    "alpine": ["_p", "_p0", "_p_alpha1", "-r0", "-r1", "-r01", "_pre1", "_rc1"],
+    "rpm": ["~rc1", "^git1", "^20200101", "-1", "-2", "~", "^"],
+    "deb": ["~rc1", "-1", "-01", "a", "a0", "~rc0", "~rc", "-0ubuntu", "-0ubuntu0", "A", "+"],
+    "nuget": [".1234", ".1234-rc1", ".1234-beta", "-rc1", ".257", ".257-rc1", ".300-a"],
+    "alpm": ["-1", "-2", ".0", "a", "rc1"],
+    "openssl": ["a", "b", "ab", "ba", "ac", "za", "z"], "legacy_openssl": ["a", "b", "ab", "ba", "ac", "za", "z"],
+    "maven": ["-ga", "-final", "-beta-ga", "-rc1-final", "-beta", "-rc1", "-RC1", "-SNAPSHOT", "-snapshot"],
+    "gem": ["-rc-2", "-1-2", ".pre.rc.pre.2", "-rc.1", "-rc1", "-rc", "-1", "-2.b"],
+    "semver": ["+build-1", "+build.1", "-rc.1", "+exp.sha-5114f85", "+exp-sha"],
+    "golang": ["+incompatible", "+build-1", "+build.1", "-rc.1"], "composer": ["+build-1", "+build.1", "-rc.1"],
+    "nginx": ["+build-1", "+build.1"], "conan": ["-rc-2", "-rc", "+b-1", "+b.1"],
+    "pypi": ["-1", ".post1", "+local", "+ubuntu.1", ".1"],
+}
+PREFIXES = {"alpm": [":", "0:", "00:"], "rpm": ["v", "vv", "0:"], "maven": ["v", "vv", "Vv"], "conan": ["v", "vv"],
+            "ebuild": ["0"], "deb": ["0:"]}
+
+
+def tail_neighbours(name, s, rng):
+    """the same base with other short endings of the scheme (1.0 / 1.0_p / 1.0_p0 / 1.0-r1; 2.1.0.1234 / 2.1.0.1234-rc1;
+    1.0.2b / 1.0.2ab) and with a short prefix (an empty epoch, a doubled `v`): versions that one line of a comparison
+    routine tells apart"""
+    import re
+    tails = TAILS.get(name, [])
+    out = []
+    m = re.search(r"[-+~_^]", s.split(":")[-1])
+    base = s if not m else s[:len(s) - len(s.split(":")[-1]) + m.start()]
+    if name in ("openssl", "legacy_openssl"):
+        base = s.rstrip("abcdefghijklmnopqrstuvwxyz")
+    for t in rng.sample(tails, min(3, len(tails))):
+        out.append(base + t)
+        if rng.random() < 0.3:
+            out.append(s + t)
+    if base and base != s:
+        out.append(base)
+    if name == "rpm" and rng.random() < 0.6:
+        # before the release, the release, after it: one base with `~`, plain, and with `^`
+        out += [base + "~rc1", base, base + "^git1"]
+    for pre in PREFIXES.get(name, []):
+        if rng.random() < 0.3:
+            out.append(pre + s)
+    return [t for t in out if t != s]
+
+
 def cut_tails(s):
     """what is left when the text is cut at its last separator, and at the last separator before a letter
     (1.1.0-beta1 / 1.1.0, 1.0_p1-r2 / 1.0_p1, 2.0.0+build / 2.0.0)"""
@@ -235,7 +293,8 @@ def build_pool(name, rng, size=40, respell=0.3, need_hash=True):
                     p.insert(s7, S.make(name, s7))
                 except Exception:  # noqa: BLE001
                     pass
-        for s6 in word_neighbours(name, s, rng) + (cut_tails(s) if rng.random() < 0.4 else []):
+        for s6 in word_neighbours(name, s, rng) + (cut_tails(s) if rng.random() < 0.4 else []) \
+                + (tail_neighbours(name, s, rng) if rng.random() < 0.4 else []):
             try:
                 p.insert(s6, S.make(name, s6))
             except Exception:  # noqa: BLE001
